@@ -178,18 +178,20 @@ def classify(args, follower, lead, sep, sym, preserve=False):
 def esc_family(t):
     """Backslash-escaped characters keep no quote tag in cicada's tokens (only a *leading* \\$ or \\| and
     \\< \\> do), so later passes act on them.  Name the mechanism that a minimal failing text triggers."""
-    import re
-    if t.count("`") >= 2:
+    # (a family applies only where its pass would really change this text - see common.esc_effects; the scratch directory
+    # holds a, aa, b and .h)
+    eff = common.esc_effects(t, ["a", "aa", "b", ".h"])
+    if "backquote" in eff:
         return "escaped-backquote-pair-is-run-as-command-substitution"
-    if re.search(r"\$[A-Za-z0-9_$?{(]", t):
+    if "dollar" in eff:
         return "escaped-dollar-not-at-word-start-is-expanded"
-    if "*" in t:
+    if "star" in eff:
         return "escaped-star-is-globbed"
-    if t.startswith("~"):
+    if "tilde" in eff:
         return "escaped-leading-tilde-is-expanded"
     if t == "&":
         return "escaped-ampersand-as-last-word-backgrounds"
-    if "{" in t and "," in t and "}" in t and t.index("{") < t.rindex("}"):
+    if "brace" in eff:
         return "escaped-braces-are-expanded"
     return None
 
